@@ -208,6 +208,7 @@ class C06(Check):
         elif kind == 'all':
             cut = eng.real('cut', 0, 3 * WMAX)
             try:
+                first = net.all_shortest_distances()          # an earlier call with the default cut-off: its table must not leak into the next one
                 out = net.all_shortest_distances(cut=cut)
                 net.prepare(cut=cut, verbose=False)
             except Exception as e:
@@ -304,6 +305,7 @@ class C06(Check):
         if kind == 'all':
             cut = float(inp['cut'])
             try:
+                first = net.all_shortest_distances()          # an earlier call with the default cut-off: its table must not leak into the next one
                 out = net.all_shortest_distances(cut=cut)
                 net.prepare(cut=cut, verbose=False)
             except Exception as e:
